@@ -26,6 +26,8 @@ pub open spec fn matches_ok(ms: Seq<WordMatch>) -> bool { ms.len() <= 0x10_0000 
 // what text_match guarantees about its result (both lists)
 pub open spec fn tm_post(rtext: &TextRef, qtext: &TextRef, ret: (Vec<WordMatch>, Vec<WordMatch>)) -> bool {
     matches_for_text(ret.0@, rtext) && matches_for_text(ret.1@, qtext) && matches_ok(ret.0@) && matches_ok(ret.1@)
+    // matches come in pairs: a record-side match is never without a query-side one
+    && (ret.0@.len() >= 1 ==> ret.1@.len() >= 1)
 }
 //@include edit_forms.rs
 // C09 / C12: a query without words matches nothing
